@@ -62,6 +62,9 @@ class CondV:
     left: Lin
     right: Lin
 
+    def __deepcopy__(self, memo):
+        return self
+
     def negate(self) -> "CondV":
         neg = {"==": "!=", "!=": "==", "<": ">=", ">=": "<", ">": "<=", "<=": ">"}[self.op]
         return CondV(neg, self.left, self.right)
@@ -176,6 +179,16 @@ class FuncRef:
 # state
 # ---------------------------------------------------------------------------------
 
+FORKS = [0]            # forks since the last top-level request (reset by Interp.run_function / fresh budgets)
+FORK_LIMIT = 300
+FORKS_MAX = [0]
+
+
+def forks_reset() -> None:
+    FORKS_MAX[0] = max(FORKS_MAX[0], FORKS[0])
+    FORKS[0] = 0
+
+
 class State:
     def __init__(self):
         self.frames: List[Dict[str, Any]] = [{}]          # call stack of local environments
@@ -195,6 +208,9 @@ class State:
         self.frames[-1] = v
 
     def fork(self) -> "State":
+        FORKS[0] += 1
+        if FORKS[0] > FORK_LIMIT:
+            raise Budget("path budget exhausted (too many forks in one request)")
         return copy.deepcopy(self)
 
     def become(self, other: "State") -> None:
@@ -376,6 +392,8 @@ class Interp:
             # top-level request of a rule module: fresh budget
             self.total_steps += self.steps
             self.steps = 0
+            FORKS_MAX[0] = max(FORKS_MAX[0], FORKS[0])
+            FORKS[0] = 0
         st = State() if state is None else state
         env = dict(self.module_env(rel))
         for k, v in list(env.items()):
